@@ -761,7 +761,7 @@ theorem present_of_match (a : Adapter) (hside : OverlapSide a) (hseq : ∀ c ∈
     (hne : 1 ≤ a.seq.length) (hsound : LocateSound (alignerCfg a (flagsOf a)) a.seq.length) (read beyond : Bytes)
     (hdom : safeDomain a read = true) (mt : SingleMatch) (hm : matchTo a read = some mt) :
     kmersPresent (finderFor a) (finderInput a read) beyond = true := by
-  simp only [safeDomain, Bool.and_eq_true, Bool.not_eq_true', Bool.and_eq_false_imp, List.all_eq_true, bne_iff_ne,
+  simp only [safeDomain, shortReadPasses, Bool.and_eq_true, Bool.not_eq_true', Bool.and_eq_false_imp, List.all_eq_true, bne_iff_ne,
     decide_eq_true_eq, decide_eq_false_iff_not] at hdom
   obtain ⟨hread', hboth⟩ := hdom
   have hread : ∀ c ∈ read, c ≠ 0 ∧ c < 128 := fun c hc => by simpa using hread' c hc
@@ -888,6 +888,19 @@ theorem matchToFiltered_eq_of_safeDomain (a : Adapter) (hside : OverlapSide a)
   unfold matchToFiltered
   cases hm : matchTo a read with
   | none => split <;> rfl
-  | some mt => rw [present_of_match a hside hseq hne hsound read beyond hdom mt hm]; rfl
+  | some mt => rw [present_of_match a hside hseq hne hsound read beyond hdom mt hm, Bool.or_true]; rfl
+
+/-- **`match_to` with the prefilter equals the aligner alone on every ASCII read without NUL bytes**: short reads of adapters
+    that search both overlap directions bypass the finder (`ShortReadsPassKmerFinder`), all others are in `safeDomain`. -/
+theorem matchToFiltered_eq_of_ascii (a : Adapter) (hside : OverlapSide a)
+    (hseq : ∀ c ∈ a.seq, c ≠ 0 ∧ tr upperTable c = c) (hne : 1 ≤ a.seq.length)
+    (hsound : LocateSound (alignerCfg a (flagsOf a)) a.seq.length) (read beyond : Bytes)
+    (hascii : asciiNoNul read = true) : matchToFiltered a read beyond = matchTo a read := by
+  cases hs : shortReadPasses a read with
+  | true => unfold matchToFiltered; rw [hs, Bool.true_or]; rfl
+  | false =>
+    refine matchToFiltered_eq_of_safeDomain a hside hseq hne hsound read beyond ?_
+    unfold safeDomain; unfold asciiNoNul at hascii
+    rw [hascii, hs]; rfl
 
 end Cutadapt.Kmer
